@@ -1,3 +1,56 @@
-From Flodym Require Import Base.ND.
-Theorem placeholder : True. Proof. exact I. Qed.
-Print Assumptions placeholder.
+(* C10 — inflow-driven and stock-driven models are inverse; both solvers agree.  Statements only. *)
+From Coq Require Import List Arith Field_theory.
+Import ListNotations.
+From Flodym Require Import Base.ND Model.Stocks Proofs.StockAlgebra Proofs.StockModel Proofs.StockRoundtrip.
+
+Section G.
+Variable F : Type.
+Variables (fO fI : F) (fadd fmul fsub : F -> F -> F) (fopp : F -> F) (fdiv : F -> F -> F) (finv : F -> F).
+Variable Fth : field_theory fO fI fadd fmul fsub fopp fdiv finv eq.
+Notation nthF := (nthF F fO).
+Notation nth2 := (nth2 F fO).
+Notation idsm := (idsm F fO fI fadd fmul fsub fdiv true).
+Notation sdsm := (sdsm F fO fI fadd fmul fsub fdiv true).
+
+(* premise of the property: every cohort has a non-vanishing share surviving its first interval
+   (non-zero diagonal), any grid with non-zero interval lengths *)
+Theorem C10_stock_driven_inverts_inflow_driven :
+  forall n dt sf, length dt = n -> (forall t c, t < c -> nth2 sf t c = fO) ->
+  (forall i, i < n -> nth2 sf i i <> fO) -> (forall i, i < n -> nthF dt i <> fO) ->
+  forall inflow, length inflow = n ->
+  o_inflow F (sdsm n dt (o_stock F (idsm n dt inflow sf)) sf) = inflow.
+Proof. intros; eapply roundtrip_inflow; eauto. Qed.
+
+Theorem C10_same_outflow_and_cohort_tables :
+  forall n dt sf, length dt = n -> (forall t c, t < c -> nth2 sf t c = fO) ->
+  (forall i, i < n -> nth2 sf i i <> fO) -> (forall i, i < n -> nthF dt i <> fO) ->
+  forall inflow, length inflow = n ->
+  let r1 := idsm n dt inflow sf in let r2 := sdsm n dt (o_stock F r1) sf in
+  o_outflow F r2 = o_outflow F r1 /\ o_sbc F r2 = o_sbc F r1 /\ o_obc F r2 = o_obc F r1.
+Proof. intros; eapply roundtrip_tables; eauto. Qed.
+
+Theorem C10_inflow_driven_reproduces_prescribed_stock :
+  forall n dt sf, length dt = n -> (forall t c, t < c -> nth2 sf t c = fO) ->
+  (forall i, i < n -> nth2 sf i i <> fO) -> (forall i, i < n -> nthF dt i <> fO) ->
+  forall s t, length s = n -> t < n ->
+  nthF (o_stock F (idsm n dt (o_inflow F (sdsm n dt s sf)) sf)) t = nthF s t.
+Proof. intros; eapply roundtrip_stock; eauto. Qed.
+
+(* both solvers agree: forward substitution solves the triangular system, and ANY solution of that
+   system (what an exact LAPACK trtrs returns) coincides with it *)
+Theorem C10_manual_solver_solves_the_system :
+  forall sf b m i, i < m -> nth2 sf i i <> fO ->
+  ssum F fO fadd (S i) (fun j => fmul (nth2 sf i j) (nthF (fs F fO fadd fmul fsub fdiv sf b m) j)) = nthF b i.
+Proof. intros; eapply fsolve_correct; eauto. Qed.
+
+Theorem C10_any_exact_solver_agrees :
+  forall sf b m (y : nat -> F), (forall i, i < m -> nth2 sf i i <> fO) ->
+  (forall i, i < m -> ssum F fO fadd (S i) (fun j => fmul (nth2 sf i j) (y j)) = nthF b i) ->
+  forall i, i < m -> y i = nthF (fs F fO fadd fmul fsub fdiv sf b m) i.
+Proof. intros; eapply fsolve_unique; eauto. Qed.
+End G.
+Print Assumptions C10_stock_driven_inverts_inflow_driven.
+Print Assumptions C10_same_outflow_and_cohort_tables.
+Print Assumptions C10_inflow_driven_reproduces_prescribed_stock.
+Print Assumptions C10_manual_solver_solves_the_system.
+Print Assumptions C10_any_exact_solver_agrees.
